@@ -57,6 +57,8 @@ pub struct Execution {
     /// delivered-byte probes evaluated before the disk is dropped
     pub consumed: Vec<bool>,
     pub panicked: bool,
+    /// (call, b'r' | b's') per event, when asked for
+    pub kinds: Vec<(u32, u8)>,
 }
 
 /// The bounded API sweep the property names (DESIGN §3), from the sheet names of the opened
@@ -106,6 +108,8 @@ pub struct ExecOpts<'a> {
     pub stop_on_panic: bool,
     /// byte offsets of the image whose delivery should be reported in `consumed`
     pub probes: &'a [(u64, u64)],
+    /// record the kind (read / seek) of every I/O event, per call
+    pub record_kinds: bool,
 }
 
 pub fn execute(
@@ -119,6 +123,7 @@ pub fn execute(
     let image_len = image.len();
     let (disk, ctl) = SimDisk::new(image, delivery, limits.max_events);
     ctl.borrow_mut().track_delivered = !opts.probes.is_empty();
+    ctl.borrow_mut().record_kinds = opts.record_kinds;
     let cpu0 = guard::my_cpu_ns();
     guard::watchdog_arm(limits.cpu_budget_ns);
     guard::alloc_begin(limits.alloc_budget);
@@ -212,6 +217,7 @@ pub fn execute(
         op_events: c.op_events.clone(),
         consumed,
         panicked,
+        kinds: c.kinds.clone(),
     }
 }
 
